@@ -133,10 +133,12 @@ class _OsProxy:
     def remove(self, path, *a, **kw):
         self._fs.op('remove', path)
         _os.remove(path, *a, **kw)
+        self._fs.touch_dir_of(path)
 
     def unlink(self, path, *a, **kw):
         self._fs.op('remove', path)
         _os.unlink(path, *a, **kw)
+        self._fs.touch_dir_of(path)
 
     def mkdir(self, path, *a, **kw):
         self._fs.op('mkdir', path)
@@ -150,6 +152,7 @@ class _OsProxy:
     def rmdir(self, path, *a, **kw):
         self._fs.op('rmdir', path)
         _os.rmdir(path, *a, **kw)
+        self._fs.touch_dir_of(path)
 
     def link(self, src, dst, *a, **kw):
         self._fs.op('link', src, dst)
@@ -280,10 +283,23 @@ class SimFS:
                 raise OSError(err, _os.strerror(err), str(paths[0]))
 
     def touch(self, path) -> None:
-        self.vmtime[_os.path.abspath(str(path))] = self.world.clock.time()
+        # every mutating operation takes one virtual microsecond, so that
+        # mtimes order operations the way a real clock would
+        self.world.clock.now += 1e-6
+        ap = _os.path.abspath(str(path))
+        now = self.world.clock.time()
+        self.vmtime[ap] = now
+        self.vmtime[_os.path.dirname(ap)] = now
+
+    def touch_dir_of(self, path) -> None:
+        self.world.clock.now += 1e-6
+        ap = _os.path.abspath(str(path))
+        self.vmtime[_os.path.dirname(ap)] = self.world.clock.time()
 
     def moved(self, src, dst, keep: bool = False) -> None:
         a, b = _os.path.abspath(str(src)), _os.path.abspath(str(dst))
+        self.touch_dir_of(a)
+        self.touch_dir_of(b)
         if a in self.vmtime:
             self.vmtime[b] = self.vmtime[a] if keep else self.vmtime.pop(a)
         # a renamed directory takes its children along
@@ -293,6 +309,10 @@ class SimFS:
 
     def fake_stat(self, path, st):
         vm = self.vmtime.get(_os.path.abspath(str(path)))
+        if vm is None and str(path).endswith('.lock') \
+                and self.world.cfg.get('stale_locks'):
+            # a lock file found at restart: its age counts from the restart
+            vm = self.world.clock.wall_offset
         if vm is None:
             return st
         vals = list(st)
@@ -330,8 +350,8 @@ class SimFS:
     def named_temporary_file(self, mode='w+b', *a, **kw):
         # tempfile draws names from os.urandom: use a counter instead
         self.temp_counter += 1
-        name = _os.path.join(_tempfile.tempdir or _tempfile.gettempdir(),
-                             'simtmp-%06d' % self.temp_counter)
+        where = kw.get('dir') or _tempfile.tempdir or _tempfile.gettempdir()
+        name = _os.path.join(where, 'simtmp-%06d' % self.temp_counter)
         self.op('open-w', name)
         fp = builtins.open(name, mode if 'x' in mode or 'w' in mode
                            else 'w+b')
